@@ -44,8 +44,10 @@ var _ = strings.Split
 
 MAIN = '''package main
 import (
+	"bufio"
 	"fmt"
 	"os"
+	"strings"
 	"sync"
 %(imports)s
 )
@@ -60,8 +62,28 @@ var units = []unit{
 %(units)s
 }
 func main() {
-	// what every parse gives alone, on a fresh context, with nothing else running
 	want := make([][]string, len(units))
+	if len(os.Args) > 2 && os.Args[1] == "conc" {
+		// a fresh process whose very first parses run concurrently (nothing the parsers set up lazily has been set up by an
+		// earlier, sequential parse); what every parse gives alone comes from the file written by the other mode
+		idx := map[string]int{}
+		for i, u := range units { idx[u.name] = i; units[i].inputs = nil }
+		f, _ := os.Open(os.Args[2])
+		sc := bufio.NewScanner(f)
+		sc.Buffer(make([]byte, 1<<20), 1<<20)
+		for sc.Scan() {
+			p := strings.SplitN(sc.Text(), "\t", 4)
+			if len(p) == 4 && p[0] == "ALONE" {
+				i := idx[p[1]]
+				units[i].inputs = append(units[i].inputs, p[2])
+				want[i] = append(want[i], p[3])
+			}
+		}
+		f.Close()
+		concurrent(want)
+		return
+	}
+	// what every parse gives alone, on a fresh context, with nothing else running
 	for i := range units {
 		u := &units[i]
 		u.limit(true)
@@ -77,6 +99,10 @@ func main() {
 		u.limit(false)
 	}
 	for i, u := range units { for k, in := range u.inputs { fmt.Printf("ALONE\\t%%s\\t%%s\\t%%s\\n", u.name, in, want[i][k]) } }
+	if len(os.Args) > 1 && os.Args[1] == "alone" { return }
+	concurrent(want)
+}
+func concurrent(want [][]string) {
 	var mu sync.Mutex
 	bad := 0
 	var wg sync.WaitGroup
@@ -168,6 +194,16 @@ def run(ctx, ngram=None, goroutines=6, rounds=None):
             return dict(built=False)
         env = dict(os.environ, GORACE='halt_on_error=0 history_size=2')
         r = subprocess.run([os.path.join(work, 'bin')], capture_output=True, text=True, timeout=1800, env=env)
+        # fresh processes that start with the concurrent phase (no sequential parse before it)
+        open(os.path.join(work, 'alone.txt'), 'w').write(''.join(l + '\n' for l in r.stdout.splitlines() if l.startswith('ALONE')))
+        cold = 0
+        for _ in range(3 if ctx.quick else 12):
+            r2 = subprocess.run([os.path.join(work, 'bin'), 'conc', os.path.join(work, 'alone.txt')], capture_output=True, text=True, timeout=1800, env=env)
+            cold += 1
+            r.stdout += ''.join(l + '\n' for l in r2.stdout.splitlines() if l.startswith('MISMATCH'))
+            r.stderr += r2.stderr
+            if 'DONE' not in r2.stdout:
+                r.stdout = r.stdout.replace('DONE', 'INCOMPLETE')
         alone = {}
         nparse = 0
         for ln in r.stdout.splitlines():
@@ -190,7 +226,7 @@ def run(ctx, ngram=None, goroutines=6, rounds=None):
                           dict(grammar=pkg, grammar_text=texts.get(pkg), grammar_sha=vlib.sha(texts.get(pkg, '')), mode='concurrent', observed=(m.group(1) if m else r.stderr)[:3000], expected='no data race'), interface='I6')
         if 'DONE' not in r.stdout:
             ctx.violation('no-failing-input-found', 'the concurrent harness did not finish: %s' % (r.stderr[-600:]), {}, interface='I6')
-        return dict(parsers=len(units), goroutines_per_parser=goroutines, rounds=rounds, parses_under_race_detector=nparse, data_races=races, inputs=len(alone))
+        return dict(parsers=len(units), cold_start_processes=cold, goroutines_per_parser=goroutines, rounds=rounds, parses_under_race_detector=nparse, data_races=races, inputs=len(alone))
     finally:
         shutil.rmtree(work, ignore_errors=True)
 
